@@ -24,7 +24,7 @@ RULE = ('I2C EEPROM v0/v1: all channels / speeds / float32 trims incl. NaN and e
 ASSUMPTIONS = ['EEPROM layout: "0xBC", version, channel, speed, pitch trim, roll trim, [address hi, address lo32], sum mod 256',
                '1-wire layout: 0xEB, pins u32, vid, pid, crc32&0xFF | 0x00, len, TLV..., crc32&0xFF',
                'reads that would run past the 112-byte 1-wire memory fail on the device and are not generated']
-REQUIRED = ['mon.loco_lists_read_again_after_all_anchors_were_removed', 'mon.i2c_reads_of_other_memories_seen_by_the_element', 'mon.lh_config_writer_subsets_not_starting_at_zero_or_with_gaps', 'mon.i2c_roundtrip', 'mon.i2c_corruptions', 'mon.ow_roundtrip', 'mon.ow_corruptions', 'mon.lh_mem', 'mon.lh_yaml',
+REQUIRED = ['mon.lh_read_all_with_one_page_failing', 'mon.loco_lists_read_again_after_all_anchors_were_removed', 'mon.i2c_reads_of_other_memories_seen_by_the_element', 'mon.lh_config_writer_subsets_not_starting_at_zero_or_with_gaps', 'mon.i2c_roundtrip', 'mon.i2c_corruptions', 'mon.ow_roundtrip', 'mon.ow_corruptions', 'mon.lh_mem', 'mon.lh_yaml',
             'mon.param_yaml', 'mon.poly4d', 'mon.led_timings', 'mon.led_timing_entries_around_the_end_marker', 'mon.deck_info', 'mon.loco', 'mon.loco2', 'mon.ow_all_lengths',
             'mon.compressed_trajectory_uploads', 'mon.lh_memory_to_file_to_memory']
 DESC_TIMEOUT = 900
@@ -50,6 +50,11 @@ class MemHandler:
 
     def read(self, mem, addr, length):
         self.reads.append((addr, length))
+        if addr in getattr(self, 'fail_once', ()):
+            # the device answers this read with an error status (once)
+            self.fail_once.discard(addr)
+            (getattr(mem, '_new_data_failed', None) or getattr(mem, 'new_data_failed'))(mem, addr, bytearray())
+            return True
         data = bytearray(self.image[addr:addr + length])
         if len(data) < length:
             data += bytearray(length - len(data))
@@ -446,6 +451,25 @@ def run_lh_writer(ctx, rnd):
                     problems.append('calibration of base station %d does not read back as written' % bs)
             elif o is None or o.valid:
                 problems.append('calibration of base station %d (not in the configuration) still reads back valid' % bs)
+    if got_g and got_c and len(got_g[0]) == 16 and len(got_c[0]) == 16:
+        # one page cannot be read this time (error status from the device): everything else is still handed over
+        kg, kc = rnd.randrange(16), rnd.randrange(16)
+        h.fail_once = {0x0000 + 0x100 * kg, 0x1000 + 0x100 * kc}
+        again_g, again_c = [], []
+        helper.read_all_geos(lambda r: again_g.append(r))
+        h.pump()
+        helper.read_all_calibs(lambda r: again_c.append(r))
+        h.pump()
+        ctx.count('mon.lh_read_all_with_one_page_failing')
+        for (what, again, first, k, eq) in (('geometry', again_g, got_g[0], kg, geo_eq), ('calibration', again_c, got_c[0], kc, calib_eq)):
+            if len(again) != 1:
+                problems.append('%s: read of all base stations with one failing page completed %d times' % (what, len(again)))
+                continue
+            missing = [bs for bs in range(16) if bs != k and (bs not in again[0] or again[0][bs].valid != first[bs].valid or
+                                                              (first[bs].valid and not eq(again[0][bs], first[bs])))]
+            if missing or k in again[0]:
+                problems.append('%s: page of base station %d failed to read; base stations %r are missing or differ in the result%s'
+                                % (what, k, missing[:6], ' and the failed one is present' if k in again[0] else ''))
     want_p = [(list(range(16)) if geos is not None else [], list(range(16)) if calibs is not None else [])]
     if persisted != want_p:
         problems.append('persist request %r' % (persisted,))
